@@ -524,6 +524,9 @@ pub enum Proc {
     AttrTextEdit { el: S, attr: Option<S>, text: Option<S>, stage: usize },
     /// declare a namespace through the attribute-node interface: create_attribute("xmlns:n"), set_value, set_attribute_node
     NsDeclare { el: S, attr: Option<S>, n: usize, stage: usize },
+    /// (text-expanded documents) take the merged text handle of an element, let one of its pieces leave through
+    /// the piece's own handle, then use the stale merged handle as old child of replace_child
+    StaleRunReplace { el: S, piece: Option<S>, run: Option<S>, new: Option<S>, stage: usize },
 }
 
 #[derive(Clone, Debug)]
@@ -1106,7 +1109,8 @@ impl Gen {
     fn start_proc(&mut self, w: &World, task: usize) -> Option<Proc> {
         let elements = self.nodes(w, |n| n.kind == Kind::Element);
         let texts = self.nodes(w, |n| n.kind == Kind::Text && n.parent.is_some());
-        match self.rng.below(8) {
+        match self.rng.below(9) {
+            8 => Some(Proc::StaleRunReplace { el: self.pick_slot(task, &elements)?, piece: None, run: None, new: None, stage: 0 }),
             7 => Some(Proc::NsDeclare { el: self.pick_slot(task, &elements)?, attr: None, n: self.rng.range(1, 3), stage: 0 }),
             5 => {
                 let (a, b) = *self.rng.pick(&[("a]]", ">b"), ("a]", "]>b"), ("]", "]>"), ("]]", ">"), ("x]", "]"), ("-", "-"), ("a", "b")]);
@@ -1299,6 +1303,37 @@ impl Gen {
                 }
                 _ => (None, None),
             },
+            Proc::StaleRunReplace { el, piece, run, new, stage } => {
+                let m = w.model.node_slot(el)?;
+                let doc = w.model.nodes[m].doc;
+                match stage {
+                    0 => {
+                        let out = self.fresh(task);
+                        (Some(Op::CreateText { doc, data: "s".into(), out }), Some(Proc::StaleRunReplace { el, piece: Some(out), run, new, stage: 1 }))
+                    }
+                    1 => {
+                        let out = self.fresh(task);
+                        (Some(Op::AppendChild { recv: el, new: piece?, out }), Some(Proc::StaleRunReplace { el, piece, run, new, stage: 2 }))
+                    }
+                    2 => {
+                        let out = self.fresh(task);
+                        (Some(Op::Nav { node: el, which: NavKind::Last, out }), Some(Proc::StaleRunReplace { el, piece, run: Some(out), new, stage: 3 }))
+                    }
+                    3 => {
+                        let out = self.fresh(task);
+                        (Some(Op::RemoveChild { recv: el, old: piece?, out }), Some(Proc::StaleRunReplace { el, piece, run, new, stage: 4 }))
+                    }
+                    4 => {
+                        let out = self.fresh(task);
+                        (Some(Op::CreateElement { doc, name: "n".into(), out }), Some(Proc::StaleRunReplace { el, piece, run, new: Some(out), stage: 5 }))
+                    }
+                    5 => {
+                        let out = self.fresh(task);
+                        (Some(Op::ReplaceChild { recv: el, new: new?, old: run?, out }), None)
+                    }
+                    _ => (None, None),
+                }
+            }
             Proc::NsDeclare { el, attr, n, stage } => match stage {
                 0 => {
                     let out = self.fresh(task);
